@@ -9,6 +9,8 @@ mod c05;
 #[cfg(actix_net_verif)]
 mod c08;
 #[cfg(actix_net_verif)]
+mod c06;
+#[cfg(actix_net_verif)]
 mod engine;
 #[cfg(actix_net_verif)]
 mod monitor;
@@ -141,6 +143,9 @@ fn main() {
     let args = Args::parse();
     if args.prop == "__warm__" {
         return;
+    }
+    if args.prop == "__child_signal" {
+        c06::child_main(args.extra_u64("timeout", 8));
     }
     let mut rep = Report::new(&args);
     let prop = args.prop.clone();
@@ -380,6 +385,49 @@ fn main() {
                         c08::Outcome::Held => Verdict::Held,
                         c08::Outcome::Violated(f) => Verdict::Violated(f),
                         c08::Outcome::Inconclusive(w) => Verdict::Inconclusive(w),
+                    }
+                }
+            },
+        ),
+        "C06" => scenario_loop(
+            &args,
+            &mut rep,
+            96,
+            1600,
+            0,
+            |seed| {
+                let s = c06::Scn::from_seed(seed);
+                (s.shape(), s.to_json())
+            },
+            {
+                let mut seen = c06::Seen::default();
+                move |seed, fin: Option<&mut Report>| -> Verdict {
+                    if let Some(rep) = fin {
+                        rep.add("obs_graceful_stops", seen.graceful_stops);
+                        rep.add("obs_forced_stops", seen.forced_stops);
+                        rep.add("obs_graceful_waited_for_connections", seen.graceful_waited_for_connections);
+                        rep.add("obs_graceful_hit_timeout", seen.graceful_hit_timeout);
+                        rep.add("obs_forced_with_held_connections", seen.forced_with_held_connections);
+                        rep.add("obs_idle_stops", seen.idle_stops);
+                        rep.add("obs_stop_twice", seen.stop_twice);
+                        rep.add("obs_dropped_stop_futures", seen.dropped_futures);
+                        rep.add("obs_stops_while_paused", seen.stops_while_paused);
+                        rep.add("obs_racing_bursts", seen.racing_bursts);
+                        rep.add("obs_server_future_resolved", seen.server_future_resolved);
+                        rep.add("obs_no_dispatch_after_completion_checks", seen.no_dispatch_after_checks);
+                        rep.add("obs_late_clients_before_stop", seen.late_clients);
+                        rep.add("obs_sigterm_runs", seen.signal_runs_term);
+                        rep.add("obs_sigint_sigquit_runs", seen.signal_runs_forced);
+                        rep.max("max_graceful_resolution_ms", seen.max_graceful_ms);
+                        rep.rule = "stop scenarios on a real server: workers 1..2 x 0..3 held connections per worker x {graceful, forced} x per-connection completion {closes 100..800 ms after the stop, never} x shutdown_timeout {1,2 s} x variants {plain, stop twice, stop future dropped unpolled, stop while paused, stop racing a burst of connects, stop issued on another thread} x {Actix, Tokio} x {TCP, UDS}; \
+                                    oracles are lower bounds and causal orders only: a graceful stop that resolves before shutdown_timeout must find every connection that was in progress already ended (log order); a forced stop must resolve while connections are still held (they are only released after 5 s, and resolving only then is the violation); the stop future(s) and the Server future resolve (a watchdog counts only with a quiescent process); \
+                                    the accept thread's exit precedes completion; no Dispatch (and after a graceful stop no service call) follows completion; sockets of clients racing the stop end up closed. One scenario in eight re-executes the harness as a child process with signal handling enabled and sends SIGTERM / SIGINT / SIGQUIT with a connection held (shutdown_timeout 8 s): SIGTERM must keep the process alive, SIGINT/SIGQUIT must end it within 5 s. Distinct = distinct scenario shape.".into();
+                        return Verdict::Held;
+                    }
+                    match c06::run_scenario(&c06::Scn::from_seed(seed), &mut seen) {
+                        c06::Outcome::Held => Verdict::Held,
+                        c06::Outcome::Violated(f) => Verdict::Violated(f),
+                        c06::Outcome::Inconclusive(w) => Verdict::Inconclusive(w),
                     }
                 }
             },
